@@ -371,7 +371,12 @@ QuiescentStatus(s, d) ==
     (d.active > 0 /\ HasRS(s, d.active)) =>
       LET elig == { n \in NodeNames(s) : Fits(s, n, TmplFor(s, d, n)) }
           live == { p \in OwnPods(s, d) : p.phase # "Unknown" }
-      IN /\ d.desired = Cardinality(elig)
+          \* known finding F-stale-nodes seen through the status: a listed canary node that no longer exists / no longer fits is still
+          \* counted in the canary replica set's desired
+          stale == IF d.hasCanary /\ HasRS(s, d.canaryRS)
+                   THEN { n \in CNodes(d) : ~(HasNode(s, n) /\ Fits(s, n, RSOf(s, d.canaryRS).tmpl)) } ELSE {}
+      IN /\ \/ d.desired = Cardinality(elig)
+            \/ Masked("F-stale-nodes", "C14", stale # {} /\ d.desired > Cardinality(elig) /\ d.desired <= Cardinality(elig) + Cardinality(stale))
          /\ d.current = Cardinality(live)
          /\ d.ready = Cardinality({ p \in live : p.ready })
          /\ d.available = Cardinality({ p \in live : p.ready })
